@@ -18,7 +18,7 @@ import ast
 import builtins
 import contextlib
 
-from .model import AnalysisError, ClassInfo, FuncInfo
+from .model import exc_is_subclass, AnalysisError, ClassInfo, FuncInfo
 from .expr import txt, unawait, dotted
 from .paths import ELEM, EXC, ENTER, TYPED
 
@@ -94,13 +94,20 @@ class Resolver:
     def __init__(self, model):
         self.m = model
         self.exc_parents = dict(BUILTIN_EXC_PARENTS)
-        ex = model.modules.get('exceptions')
-        if ex is not None:
-            for c in ex.classes.values():
-                if c.bases:
-                    self.exc_parents[c.name] = c.bases[0].name
-                elif c.external_bases:
-                    self.exc_parents[c.name] = c.external_bases[0].split('.')[-1]
+        # repository exception classes, from every module, with all their bases
+        changed = True
+        while changed:
+            changed = False
+            for mi in model.modules.values():
+                for c in mi.classes.values():
+                    if c.name in self.exc_parents:
+                        continue
+                    bases = [b.name for b in c.bases] + \
+                        [b.split('.')[-1] for b in c.external_bases]
+                    if bases and any(b in self.exc_parents or b == 'BaseException'
+                                     for b in bases):
+                        self.exc_parents[c.name] = tuple(bases) if len(bases) > 1 else bases[0]
+                        changed = True
         self.stats = {'repo': 0, 'prim': 0, 'class': 0, 'unknown': 0}
         self.unknown = {}
         self._fi = False
@@ -298,7 +305,8 @@ class Resolver:
         if isinstance(e, ast.JoinedStr):
             return ('ext', 'str')
         if isinstance(e, ast.Name):
-            if e.id == 'self' and self.owner_class(fi, ctx) is not None:
+            if e.id in ('self', '_obj') and self.owner_class(fi, ctx) is not None:
+                # _obj: the object under construction inside an inlined __init__
                 return ('inst', self.owner_class(fi, ctx))
             if self._cur_env is not None and depth < 8:
                 d = self._cur_env.get('$def:' + e.id)
@@ -785,7 +793,11 @@ class Resolver:
             if tag == 'ws':
                 r.prim = 'ws.__call__'
             if tag in ('ws.wait', 'ws.send', 'ws.close'):
-                r.raises = self.driver_raises(tag.split('.')[1])
+                owner = ctx or fi.cls
+                aio = None
+                if owner is not None:
+                    aio = owner.module.name.startswith('async_')
+                r.raises = self.driver_raises(tag.split('.')[1], aio)
             return r
         return self._unknown(text)
 
@@ -811,16 +823,28 @@ class Resolver:
         return Resolution('unknown', text=text)
 
     # ------------------------------------------------------------------
-    def driver_raises(self, meth):
-        """Exception classes explicitly raised by some driver's WebSocket.<meth>."""
+    def driver_raises(self, meth, asyncio=None):
+        """Exception classes explicitly raised by some driver's WebSocket.<meth>; asyncio =
+        True / False restricts to the drivers of that flavour (registry key 'asyncio')."""
         out = set()
         for ci in self.driver_ws:
+            if asyncio is not None and self._driver_is_asyncio(ci.module) != asyncio:
+                continue
             for k in self.m.mro(ci):
                 m = k.methods.get(meth)
                 if m is not None:
                     out |= self.raises_of(m, ci)
                     break
         return out
+
+    def _driver_is_asyncio(self, mi):
+        reg = mi.consts.get('_async')
+        if isinstance(reg, ast.Dict):
+            for k, v in zip(reg.keys, reg.values):
+                if isinstance(k, ast.Constant) and k.value == 'asyncio':
+                    return isinstance(v, ast.Constant) and v.value is True
+        # helper modules (e.g. _websocket_wsgi) belong to the threaded drivers
+        return False
 
     def raises_of(self, fn, ctx=None):
         """Explicit-raise summary: class names raised by ``raise`` statements in fn or in its
@@ -844,13 +868,8 @@ class Resolver:
         if names is None:
             return True
         for n in names:
-            c = cls
-            seen = set()
-            while c is not None and c not in seen:
-                if c == n:
-                    return True
-                seen.add(c)
-                c = self.exc_parents.get(c)
+            if exc_is_subclass(cls, n, self.exc_parents):
+                return True
             if n == 'BaseException' or (n == 'Exception' and cls not in (
                     'KeyboardInterrupt', 'SystemExit', 'GeneratorExit', 'CancelledError')):
                 return True
